@@ -325,5 +325,5 @@ def run(ctx: core.Ctx):
                    max_rows_per_iteration=max([s[2] for s in stats] or [0]), batch=batch, ping_answered_after_rows=at,
                    inferred_peek_rows=peek, disagreements=len(disagreements)),
         assumptions=["transport buffering after writer.write (asyncio high-water mark, kernel buffers) is not modelled: 'accepts' means "
-                     "drain() returns", "asyncio's FIFO ready queue"],
+                     "drain() returns; the fake writer keeps a memoryview of a bytearray written while paused (as the CPython 3.12 transport does)", "asyncio's FIFO ready queue"],
     )
